@@ -324,6 +324,25 @@ def r04_18(run, model):
     run.floor("parses of non-entry files in load_package", n, 1)
 
 
+def r04_22(run, model):
+    run.rule("R04.22", "two looks at the same token agree: the grammar is written `if p.at(K) { f(p) }` with `assert!(p.at(K))` inside f "
+                       "(R04.3), so Parser::peek / nth must not change their answer between two calls without an `advance` - a look that "
+                       "spends the stuck-parser fuel and answers Eof once it is gone makes the test and the assertion disagree")
+    PARSER = "crates/parser/src/parser.rs"
+    n = 0
+    for name in ("peek", "nth"):
+        f = model.fn(name, PARSER, impl="Parser")
+        t = S.norm_ws(run.facts.text(PARSER, f.body["sp"]))
+        spends = re.search(r"fuel\.set\(", t) is not None
+        gates = re.search(r"ifself\.fuel\.get\(\)==0", t) is not None
+        n += 1
+        run.ob("R04.22", f"Parser::{name}|looking at a token does not change the answer of the next look", not (spends and gates), site(PARSER, f.node["sp"]),
+               f"spends fuel: {spends}; answers Eof when the fuel is gone: {gates}",
+               witness="`match ---…-1 { .. }` with exactly 254 prefix operators: `if p.at('{')` succeeds with the last unit of fuel, match_arm_list's "
+                       "assert!(p.at('{')) sees Eof and panics (253 and 255 give `parser did not consume input`)")
+    run.floor("look-ahead primitives examined", n, 2)
+
+
 def r04_7(run, model, only_files=None):
     from lib import bounds as B
     run.rule("R04.7", "hand-written scanners never index past the end: every `bytes[E]` / `tokens[E]` in the lexer's multi-line string scanner, the "
@@ -477,6 +496,7 @@ def run(run, model):
     run.try_rule(lambda r, m: _c17.unique_definition(r, m, "R04.20", "define_function", ".funcs", "function table",
                  "fn vec_get(x: int32) -> int32 { x + 1 } plus a call: the typer accepts it, go::compile panics (unwrap on None)"), model)
     run.try_rule(r04_18, model)
+    run.try_rule(r04_22, model)
     run.try_rule(r04_7, model)
     run.try_rule(r04_8, model)
     run.try_rule(r04_10, model, an)
